@@ -7,47 +7,47 @@ M = "trusts the reference model harness/src/model.rs (independent RFC encoder/de
 def e(technique, text, ref, note=M):
     return (technique, text, note, ref)
 CHECKS = {
- "C01": e("PBT + bounded-exhaustive sweeps over byte strings; oracle = no unwind + iterator step bound; libFuzzer campaign in the thorough tier",
-          "Generated-input search: every public parser, and on every accepted value every accessor, iterator and conversion, is run inside catch_unwind with iterators counted against 5*len+8 steps. Exploration is the right level: the property is a universally quantified robustness claim over all byte strings, decided input by input; sweeps cover all strings up to 2 bytes and the header space exhaustively, generators reach the accepted-by-accident inputs where lazy views fail.", "DESIGN.md 3/C01",
+ "C01": e("PBT + bounded-exhaustive sweeps over byte strings; oracle = no unwind + iterator step bound; libFuzzer campaign in the thorough tier; every length field with bodies up to 256 KiB; saved regression inputs replayed first",
+          "Generated-input search: every public parser, and on every accepted value every accessor, iterator and conversion, is run inside catch_unwind with iterators counted against 5*len+8 steps. Exploration is the right level: the property is a universally quantified robustness claim over all byte strings, decided input by input; sweeps cover all strings up to 2 bytes and the header space exhaustively, generators reach the accepted-by-accident inputs where lazy views fail. The saved failing inputs of earlier defects and of the seeded changes are replayed first in every tier; the thorough tier adds 8 libFuzzer processes whose in-target oracle is this property's oracle.", "DESIGN.md 3/C01",
           "termination inside a single call relies on a watchdog (6 s, confirmed in a fresh subprocess); overflow checks / debug assertions are on, as in a user's dev build"),
- "C02": e("round-trip PBT (proptest specs + exhaustive blocks x padding sweep): build -> parse -> compare every accessor with the configuration",
-          "Round-trip oracle over generated SR/RR configurations with boundary-biased full-range fields, 0..=31 blocks and all legal paddings; the sweep covers every (block count, padding) pair.", "DESIGN.md 3/C02"),
- "C03": e("round-trip PBT with alignment sweeps: build -> Sdes::parse -> chunks/items/prefixes compared",
-          "Round-trip oracle over generated SDES configurations; sweeps enumerate every alignment residue and every distance of the last item from the packet end (two items of lengths 0..=11 x following SSRC with 0..=4 leading zero bytes x padding) and every single-item length.", "DESIGN.md 3/C03"),
- "C04": e("round-trip PBT + exhaustive reason-length x padding x sources sweep",
-          "Round-trip oracle for BYE and APP; the BYE sweep (reason length 0..=255 x padding {0,4,8,252} x sources {0,1,31}) is exhaustive for the arithmetic that decides the layout.", "DESIGN.md 3/C04"),
- "C05": e("round-trip PBT over feedback builders x FCI generators (NACK window boundaries, FIR re-adds, RPSI length x bits sweep)",
-          "Round-trip oracle: builder bytes -> typed parser -> parse_fci::<F> compared with the configured set / map / list / bit string (RPSI as bits). Two known findings (empty SLI / FIR list) are keyed on their exact signatures.", "DESIGN.md 3/C05"),
- "C06": e("PBT over (configuration, buffer length) pairs incl. invalid configurations; oracle = agreement of calculate_size and write_into for every buffer length 0..=n+8",
-          "For every generated configuration the announced size is compared with write_into on every buffer length from 0 to n+8 (sampled above 160 bytes); sweeps: every padding byte per kind, RPSI length x bits, every feedback x FCI pairing, SDES chunk/item builders.", "DESIGN.md 3/C06"),
- "C07": e("differential PBT: proptest-generated builder configurations + bounded-exhaustive sweeps vs an independent RFC encoder",
-          "Every accepted configuration's bytes must equal the image computed by a separately written RFC 3550/4585/5104 encoder (FIR as a multiset, NACK by reference decoding + minimal word count). Sees symmetric writer/parser errors that round trips cannot.", "DESIGN.md 3/C07"),
- "C08": e("PBT + exhaustive header-space sweep over byte strings; oracle = framing predicate recomputed independently on every accepted string",
-          "Whenever any typed parser, the generic parser or the unknown parser accepts a generated string, the framing conditions and header accessor values are recomputed from the bytes by the reference; the header-space sweep (1.4 M strings x 9 parsers in quick) is exhaustive over version x P x count x PT x length field x length x last byte.", "DESIGN.md 3/C08"),
- "C09": e("differential PBT: accessors vs reference reads at RFC offsets, pointer-equality for returned slices; reference-encoded packets must be accepted",
-          "Each accessor of every accepted string is compared with a big-endian read at the RFC offset; returned slices must be sub-slices of the input at the expected offset (pointer + length).", "DESIGN.md 3/C09"),
- "C10": e("bounded-exhaustive + token-level PBT against a three-valued reference tokeniser (must-accept / must-reject / either)",
-          "6.7 M exhaustive short bodies (16.7 M more in thorough) plus token-level defect injection and reference-encoded well-formed packets; the three-valued oracle avoids false alarms on inputs the RFC leaves open.", "DESIGN.md 3/C10"),
- "C11": e("model-based PBT over datagrams x next() call histories + exhaustive length-chain sweep; reference tiling model",
-          "Compound::parse acceptance must equal the reference tiling; a generated history of next() calls (including calls after exhaustion) is compared step by step with Packet::parse of each tile.", "DESIGN.md 3/C11"),
- "C12": e("differential PBT: Packet::parse vs typed parsers, full 8x7x3 (+7x3) conversion matrix",
-          "Generic dispatch and every conversion path are compared with the typed parser on the same bytes; the evidence lists the matrix cells hit.", "DESIGN.md 3/C12"),
- "C13": e("metamorphic PBT: parse(p) vs parse(pad(p, n)) for all 63 legal paddings per generated base packet",
-          "Metamorphic relation with an independently implemented RFC 3550 padding transform; all 63 paddings are swept for every generated base packet (from the reference encoder and from the crate's builders).", "DESIGN.md 3/C13"),
- "C14": e("PBT over member lists (nested compounds, third-party writers, invalid members, padding anywhere); oracle = concatenation + parse-back",
-          "Success criterion, size == sum, bytes == concatenation of the members' own images and parse-back are checked for generated member lists; all pairs of kinds x padding positions are swept.", "DESIGN.md 3/C14"),
- "C15": e("differential PBT + exhaustive single-word sweeps against reference FCI decoders; kind/format gating matrix",
-          "Arbitrary FCI bytes under every kind x format; NACK single words swept over all masks x 8 PIDs and all PIDs x 8 masks, SLI fields exhaustively + 2^20 words, RPSI PB x length.", "DESIGN.md 3/C15"),
- "C16": e("PBT over possibly-unrepresentable configurations vs an independent rule list; per-limit sweeps from both sides; total-size boundary leg",
-          "calculate_size must fail exactly when the independent representability predicate says so, with an error naming a violated rule and value. One root cause (no total-size limit) is recorded as five known findings keyed on exact signatures.", "DESIGN.md 3/C16"),
- "C17": e("PBT with two complementary buffer prefills; oracle = written bytes independent of prefill, bytes beyond n and failed writes untouched",
-          "Two prefills that differ in every byte expose any byte a writer leaves undefined or touches outside its claim, for accepted and rejected configurations and short buffers.", "DESIGN.md 3/C17"),
- "C18": e("PBT + exhaustive header-space sweep; oracle = truthfulness predicates and exact error predictions recomputed from the bytes",
-          "Every error returned by any parser on generated strings is checked against the input (version, type, expected vs actual ordering) and against two exact predictions (short input, length mismatch).", "DESIGN.md 3/C18"),
- "C19": e("PBT over a const-generic family of out-of-crate packet types built on the public helpers; helper contracts swept over padding x count x family x buffer sizes",
-          "A downstream-style packet family (6 type/min-length pairs) exercises check_packet, the header/padding writers and the unknown builder; fields must survive compound-parse -> Unknown -> try_as.", "DESIGN.md 3/C19"),
- "C20": e("stateful PBT: builder call histories (choice bytes interpreted call by call, shrinking to the canonical sequence) vs canonical construction of the final configuration",
-          "Histories permute setters, overwrite them with junk first, repeat adds and switch between owned/borrowed API variants and wrappers at arbitrary points; output must equal the canonical construction.", "DESIGN.md 3/C20",
+ "C02": e("round-trip PBT (proptest specs + exhaustive blocks x padding sweep): build -> parse -> compare every accessor with the configuration; thorough tier adds a coverage-guided libFuzzer campaign (hand-decoded builder configurations -> the same oracle)",
+          "Round-trip oracle over generated SR/RR configurations with boundary-biased full-range fields, 0..=31 blocks and all legal paddings; the sweep covers every (block count, padding) pair. The saved failing inputs of earlier defects and of the seeded changes are replayed first in every tier; the thorough tier adds 8 libFuzzer processes whose in-target oracle is this property's oracle.", "DESIGN.md 3/C02"),
+ "C03": e("round-trip PBT with alignment sweeps: build -> Sdes::parse -> chunks/items/prefixes compared; thorough tier adds a coverage-guided libFuzzer campaign (hand-decoded builder configurations -> the same oracle)",
+          "Round-trip oracle over generated SDES configurations; sweeps enumerate every alignment residue and every distance of the last item from the packet end (two items of lengths 0..=11 x following SSRC with 0..=4 leading zero bytes x padding) and every single-item length. The saved failing inputs of earlier defects and of the seeded changes are replayed first in every tier; the thorough tier adds 8 libFuzzer processes whose in-target oracle is this property's oracle.", "DESIGN.md 3/C03"),
+ "C04": e("round-trip PBT + exhaustive reason-length x padding x sources sweep; thorough tier adds a coverage-guided libFuzzer campaign (hand-decoded builder configurations -> the same oracle)",
+          "Round-trip oracle for BYE and APP; the BYE sweep (reason length 0..=255 x padding {0,4,8,252} x sources {0,1,31}) is exhaustive for the arithmetic that decides the layout. The saved failing inputs of earlier defects and of the seeded changes are replayed first in every tier; the thorough tier adds 8 libFuzzer processes whose in-target oracle is this property's oracle.", "DESIGN.md 3/C04"),
+ "C05": e("round-trip PBT over feedback builders x FCI generators (NACK window boundaries, FIR re-adds, RPSI length x bits sweep); thorough tier adds a coverage-guided libFuzzer campaign (hand-decoded builder configurations -> the same oracle)",
+          "Round-trip oracle: builder bytes -> typed parser -> parse_fci::<F> compared with the configured set / map / list / bit string (RPSI as bits). Two known findings (empty SLI / FIR list) are keyed on their exact signatures. The saved failing inputs of earlier defects and of the seeded changes are replayed first in every tier; the thorough tier adds 8 libFuzzer processes whose in-target oracle is this property's oracle.", "DESIGN.md 3/C05"),
+ "C06": e("PBT over (configuration, buffer length) pairs incl. invalid configurations; oracle = agreement of calculate_size and write_into for every buffer length 0..=n+8; thorough tier adds a coverage-guided libFuzzer campaign (hand-decoded builder configurations -> the same oracle)",
+          "For every generated configuration the announced size is compared with write_into on every buffer length from 0 to n+8 (sampled above 160 bytes); sweeps: every padding byte per kind, RPSI length x bits, every feedback x FCI pairing, SDES chunk/item builders. The saved failing inputs of earlier defects and of the seeded changes are replayed first in every tier; the thorough tier adds 8 libFuzzer processes whose in-target oracle is this property's oracle.", "DESIGN.md 3/C06"),
+ "C07": e("differential PBT: proptest-generated builder configurations + bounded-exhaustive sweeps vs an independent RFC encoder; thorough tier adds a coverage-guided libFuzzer campaign (hand-decoded builder configurations -> the same oracle)",
+          "Every accepted configuration's bytes must equal the image computed by a separately written RFC 3550/4585/5104 encoder (FIR as a multiset, NACK by reference decoding + minimal word count). Sees symmetric writer/parser errors that round trips cannot. The saved failing inputs of earlier defects and of the seeded changes are replayed first in every tier; the thorough tier adds 8 libFuzzer processes whose in-target oracle is this property's oracle.", "DESIGN.md 3/C07"),
+ "C08": e("PBT + exhaustive header-space sweep over byte strings; oracle = framing predicate recomputed independently on every accepted string; thorough tier adds a coverage-guided libFuzzer campaign (raw bytes -> the same oracle)",
+          "Whenever any typed parser, the generic parser or the unknown parser accepts a generated string, the framing conditions and header accessor values are recomputed from the bytes by the reference; the header-space sweep (1.4 M strings x 9 parsers in quick) is exhaustive over version x P x count x PT x length field x length x last byte. The saved failing inputs of earlier defects and of the seeded changes are replayed first in every tier; the thorough tier adds 8 libFuzzer processes whose in-target oracle is this property's oracle.", "DESIGN.md 3/C08"),
+ "C09": e("differential PBT: accessors vs reference reads at RFC offsets, pointer-equality for returned slices; reference-encoded packets must be accepted; thorough tier adds a coverage-guided libFuzzer campaign (raw bytes -> the same oracle)",
+          "Each accessor of every accepted string is compared with a big-endian read at the RFC offset; returned slices must be sub-slices of the input at the expected offset (pointer + length). The saved failing inputs of earlier defects and of the seeded changes are replayed first in every tier; the thorough tier adds 8 libFuzzer processes whose in-target oracle is this property's oracle.", "DESIGN.md 3/C09"),
+ "C10": e("bounded-exhaustive + token-level PBT against a three-valued reference tokeniser (must-accept / must-reject / either); thorough tier adds a coverage-guided libFuzzer campaign (raw bytes -> the same oracle)",
+          "6.7 M exhaustive short bodies (16.7 M more in thorough) plus token-level defect injection and reference-encoded well-formed packets; the three-valued oracle avoids false alarms on inputs the RFC leaves open. The saved failing inputs of earlier defects and of the seeded changes are replayed first in every tier; the thorough tier adds 8 libFuzzer processes whose in-target oracle is this property's oracle.", "DESIGN.md 3/C10"),
+ "C11": e("model-based PBT over datagrams x next() call histories + exhaustive length-chain sweep; reference tiling model; thorough tier adds a coverage-guided libFuzzer campaign (raw bytes -> the same oracle)",
+          "Compound::parse acceptance must equal the reference tiling; a generated history of next() calls (including calls after exhaustion) is compared step by step with Packet::parse of each tile. The saved failing inputs of earlier defects and of the seeded changes are replayed first in every tier; the thorough tier adds 8 libFuzzer processes whose in-target oracle is this property's oracle.", "DESIGN.md 3/C11"),
+ "C12": e("differential PBT: Packet::parse vs typed parsers, full 8x7x3 (+7x3) conversion matrix; thorough tier adds a coverage-guided libFuzzer campaign (raw bytes -> the same oracle)",
+          "Generic dispatch and every conversion path are compared with the typed parser on the same bytes; the evidence lists the matrix cells hit. The saved failing inputs of earlier defects and of the seeded changes are replayed first in every tier; the thorough tier adds 8 libFuzzer processes whose in-target oracle is this property's oracle.", "DESIGN.md 3/C12"),
+ "C13": e("metamorphic PBT: parse(p) vs parse(pad(p, n)) for all 63 legal paddings per generated base packet; thorough tier adds a coverage-guided libFuzzer campaign (hand-decoded builder configurations -> the same oracle)",
+          "Metamorphic relation with an independently implemented RFC 3550 padding transform; all 63 paddings are swept for every generated base packet (from the reference encoder and from the crate's builders). The saved failing inputs of earlier defects and of the seeded changes are replayed first in every tier; the thorough tier adds 8 libFuzzer processes whose in-target oracle is this property's oracle.", "DESIGN.md 3/C13"),
+ "C14": e("PBT over member lists (nested compounds, third-party writers, invalid members, padding anywhere); oracle = concatenation + parse-back; thorough tier adds a coverage-guided libFuzzer campaign (hand-decoded builder configurations -> the same oracle)",
+          "Success criterion, size == sum, bytes == concatenation of the members' own images and parse-back are checked for generated member lists; all pairs of kinds x padding positions are swept. The saved failing inputs of earlier defects and of the seeded changes are replayed first in every tier; the thorough tier adds 8 libFuzzer processes whose in-target oracle is this property's oracle.", "DESIGN.md 3/C14"),
+ "C15": e("differential PBT + exhaustive single-word sweeps against reference FCI decoders; kind/format gating matrix; thorough tier adds a coverage-guided libFuzzer campaign (raw bytes -> the same oracle)",
+          "Arbitrary FCI bytes under every kind x format; NACK single words swept over all masks x 8 PIDs and all PIDs x 8 masks, SLI fields exhaustively + 2^20 words, RPSI PB x length. The saved failing inputs of earlier defects and of the seeded changes are replayed first in every tier; the thorough tier adds 8 libFuzzer processes whose in-target oracle is this property's oracle.", "DESIGN.md 3/C15"),
+ "C16": e("PBT over possibly-unrepresentable configurations vs an independent rule list; per-limit sweeps from both sides; total-size boundary leg; thorough tier adds a coverage-guided libFuzzer campaign (hand-decoded builder configurations -> the same oracle)",
+          "calculate_size must fail exactly when the independent representability predicate says so, with an error naming a violated rule and value. One root cause (no total-size limit) is recorded as five known findings keyed on exact signatures. The saved failing inputs of earlier defects and of the seeded changes are replayed first in every tier; the thorough tier adds 8 libFuzzer processes whose in-target oracle is this property's oracle.", "DESIGN.md 3/C16"),
+ "C17": e("PBT with two complementary buffer prefills; oracle = written bytes independent of prefill, bytes beyond n and failed writes untouched; thorough tier adds a coverage-guided libFuzzer campaign (hand-decoded builder configurations -> the same oracle)",
+          "Two prefills that differ in every byte expose any byte a writer leaves undefined or touches outside its claim, for accepted and rejected configurations and short buffers. The saved failing inputs of earlier defects and of the seeded changes are replayed first in every tier; the thorough tier adds 8 libFuzzer processes whose in-target oracle is this property's oracle.", "DESIGN.md 3/C17"),
+ "C18": e("PBT + exhaustive header-space sweep; oracle = truthfulness predicates and exact error predictions recomputed from the bytes; thorough tier adds a coverage-guided libFuzzer campaign (raw bytes -> the same oracle)",
+          "Every error returned by any parser on generated strings is checked against the input (version, type, expected vs actual ordering) and against two exact predictions (short input, length mismatch). The saved failing inputs of earlier defects and of the seeded changes are replayed first in every tier; the thorough tier adds 8 libFuzzer processes whose in-target oracle is this property's oracle.", "DESIGN.md 3/C18"),
+ "C19": e("PBT over a const-generic family of out-of-crate packet types built on the public helpers; helper contracts swept over padding x count x family x buffer sizes; thorough tier adds a coverage-guided libFuzzer campaign (hand-decoded builder configurations -> the same oracle)",
+          "A downstream-style packet family (6 type/min-length pairs) exercises check_packet, the header/padding writers and the unknown builder; fields must survive compound-parse -> Unknown -> try_as. The saved failing inputs of earlier defects and of the seeded changes are replayed first in every tier; the thorough tier adds 8 libFuzzer processes whose in-target oracle is this property's oracle.", "DESIGN.md 3/C19"),
+ "C20": e("stateful PBT: builder call histories (choice bytes interpreted call by call, shrinking to the canonical sequence) vs canonical construction of the final configuration; thorough tier adds a coverage-guided libFuzzer campaign (hand-decoded builder configurations -> the same oracle)",
+          "Histories permute setters, overwrite them with junk first, repeat adds and switch between owned/borrowed API variants and wrappers at arbitrary points; output must equal the canonical construction. The saved failing inputs of earlier defects and of the seeded changes are replayed first in every tier; the thorough tier adds 8 libFuzzer processes whose in-target oracle is this property's oracle.", "DESIGN.md 3/C20",
           "the canonical construction is itself checked against the RFC image by C07"),
 }
 IMPLEMENTED = set(CHECKS)
@@ -67,7 +67,9 @@ def main():
         },
         "engines": [
             {"name": "verif", "path": "harness/", "serves_properties": sorted(IMPLEMENTED),
-             "kind_free_text": "proptest 1.11 strategies driven from a binary (fixed 8 workers, seeds derived from VERIF_SEED), bounded-exhaustive sweep legs, shrinking to a JSON replay file"},
+             "kind_free_text": "proptest 1.11 strategies driven from a binary (fixed 8 workers, seeds derived from VERIF_SEED), bounded-exhaustive sweep legs, a regression corpus of saved failing cases, shrinking to a JSON replay file"},
+            {"name": "libfuzzer", "path": "harness/fuzz/", "serves_properties": sorted(IMPLEMENTED),
+             "kind_free_text": "cargo-fuzz 0.13 / libFuzzer targets `raw` (byte-level properties) and `spec` (hand-written structured decoder -> builder configuration); the property's own oracle runs inside the target; harness/fuzz/campaign.sh runs 8 fixed-work processes in the thorough tier and converts any crash artefact into a replay file"},
         ],
         "checks": [],
         "not_applicable": [],
